@@ -303,6 +303,7 @@ nice_component_clean_turn_servers (NiceAgent *agent, NiceComponent *cmp)
     refresh_prune_candidate_async (agent, candidate,
         (NiceTimeoutLockedCallback) on_candidate_refreshes_pruned);
   }
+  g_slist_free (relay_candidates);
 }
 
 static void
